@@ -26,8 +26,6 @@ MUTANTS = [
     ("import-question-mark", "C18", "R-IMPORT", "run_import", "crates/runtime/src/vm.rs",
      "        let importer_exports = self.exports.clone();\n        self.exports = KMap::default();\n",
      "        let importer_exports = self.exports.clone();\n        self.exports = KMap::default();\n        self.context.loader.borrow_mut().compile_module(&import_name, None)?;\n"),
-    ("import-placeholder-late", "C18", "R-IMPORT-ONCE", "run_import", "crates/runtime/src/vm.rs",
-     None, None),  # built below (moves the placeholder after the closure)
     ("timeout-poll-skipped", "C08", "R-TIMEOUT-POLL", "execute_instructions", "crates/runtime/src/vm.rs",
      "            if let Some(timeout) = timeout.as_mut()\n                && timeout.check_for_timeout()\n            {",
      "            if let Some(timeout) = timeout.as_mut()\n                && !matches!(instruction, Instruction::Jump { .. })\n                && timeout.check_for_timeout()\n            {"),
@@ -61,13 +59,9 @@ MUTANTS = [
     ("enc-var-as-byte", "C05", "R-ENC", "compile_assert_type", "crates/bytecode/src/compiler.rs",
      "                    self.push_op(op, &[value_register]);\n                    self.push_var_u32((*type_index).into());\n\n                    if span.is_some() {",
      "                    self.push_op(op, &[value_register, u32::from(*type_index) as u8]);\n\n                    if span.is_some() {"),
-    ("borrow-new-callback-under-guard", "C06", "R-BORROW", "list::fill", "crates/runtime/src/core_lib/list.rs",
-     None, None),
     ("iter-copy-clone", "C13", "R-ITER-COPY", "Take", "crates/runtime/src/core_lib/iterator/adaptors.rs",
      "impl KotoIterator for Take {\n    fn make_copy(&self) -> Result<KIterator> {\n        let result = Self {\n            iter: self.iter.make_copy()?,",
      "impl KotoIterator for Take {\n    fn make_copy(&self) -> Result<KIterator> {\n        let result = Self {\n            iter: self.iter.clone(),"),
-    ("iter-err-dropped", "C13", "R-ITER-ERR", "Take", "crates/runtime/src/core_lib/iterator/adaptors.rs",
-     None, None),
     ("indent-class-changed", "C10", "R-INDENT", "", "crates/parser/src/parser.rs",
      "            None => self.consume_token_and_error(ExpectedIndentation::WhileBody),",
      "            None => self.consume_token_and_error(SyntaxError::UnexpectedToken),"),
@@ -82,16 +76,8 @@ MUTANTS = [
      "                if self.settings.enable_type_checks {\n                    self.push_span(type_node, ctx.ast);\n                } else {\n                    self.push_span(type_node, ctx.ast);\n                    self.debug_info.push(self.bytes.len() as u32, self.span());\n                }\n\n                let op = if *allow_null {\n                    Op::CheckOptionalType"),
     ("num-wrap-plain-add", "C01", "R-NUM-WRAP", "Add", "crates/runtime/src/types/number.rs",
      "number_op!(Add, add, +, wrapping_add);", "number_op!(Add, add, +, saturating_add);"),
-    ("hasheq-bits", "C14", "R-HASHEQ", "KNumber", "crates/runtime/src/types/number.rs",
-     None, None),
-    ("map-order-swap-remove", "C14", "R-MAP-ORDER", "KMap::remove", "crates/runtime/src/types/map.rs",
-     None, None),
     ("obj-default-ok-null", "C17", "R-OBJ-DEFAULTS", "index", "crates/runtime/src/types/object.rs",
      "        unimplemented_error(\"@index\", self.type_string())", "        Ok(KValue::Null)"),
-    ("dispatch-wrong-key", "C17", "R-DISPATCH-REFS", "run_greater", "crates/runtime/src/vm.rs",
-     None, None),
-    ("serde-visit-unit-gone", "C20", "R-SERDE-KINDS", "", "crates/serde/src/deserialize.rs",
-     None, None),
     ("unsafe-bounds-unvalidated", "C15", "R-UNSAFE-BOUNDS", "with_bounds", "crates/parser/src/string_slice.rs",
      "        if self.data.get(new_bounds.clone()).is_some() {\n            try_from_range(&new_bounds)",
      "        if new_bounds.end <= self.data.len() {\n            try_from_range(&new_bounds)"),
@@ -133,15 +119,55 @@ MUTANTS = [
      "        let [result_register, value_register] = self.next_registers()?;",
      "        let result_register = self.new_frame_base()?;\n        let value_register = result_register + 1;"),
     ("vm-regs-as-u8", "C06", "R-VM-REGS", "new_frame_base", "crates/runtime/src/vm.rs",
-     "        u8::try_from(self.registers.len() - self.register_base)\n            .map_err(|_| \"Overflow of the current frame's register stack\".into())",
-     "        Ok((self.registers.len() - self.register_base) as u8)"),
-    ("atomic-check-then-act", "C19", "R-ATOMIC", "list::pop", "crates/runtime/src/core_lib/list.rs",
-     None, None),
+     "        match u8::try_from(self.registers.len() - self.register_base) {\n            Ok(frame_base) if frame_base < u8::MAX => Ok(frame_base),\n            _ => runtime_error!(\"Overflow of the current frame's register stack\"),\n        }",
+     "        match (self.registers.len() - self.register_base) as u8 {\n            frame_base if frame_base < u8::MAX => Ok(frame_base),\n            _ => runtime_error!(\"Overflow of the current frame's register stack\"),\n        }"),
+    ("vm-frame-base-255", "C06", "R-VM-REGS", "new_frame_base", "crates/runtime/src/vm.rs",
+     "            Ok(frame_base) if frame_base < u8::MAX => Ok(frame_base),",
+     "            Ok(frame_base) => Ok(frame_base),"),
+    ("vm-generator-extra-args-unguarded", "C06", "R-VM-REGS", "call_generator", "crates/runtime/src/vm.rs",
+     "        if call_info.arg_count > expected_arg_count {\n            generator_vm.registers.extend(",
+     "        if call_info.arg_count != u8::MAX {\n            generator_vm.registers.extend("),
+    ("vm-unpack-limit-gone", "C06", "R-VM-REGS", "unpack_packed_arguments", "crates/runtime/src/vm.rs",
+     "                if unpacked_values.len() == max_unpacked_args {\n                    return runtime_error!(\"Call argument limit reached during unpacking\");\n                }\n",
+     "                let _ = max_unpacked_args;\n"),
+    ("vm-callinfo-frame-base-from-len", "C06", "R-VM-REGS", "call_overridden_op_1", "crates/runtime/src/vm.rs",
+     "        // Set up the call registers at the end of the stack\n        let frame_base = self.new_frame_base()?;\n        self.registers.push(self.clone_register(value_register)); // Frame base",
+     "        // Set up the call registers at the end of the stack\n        let frame_base = u8::try_from(self.registers.len() - self.register_base).unwrap_or(u8::MAX);\n        self.registers.push(self.clone_register(value_register)); // Frame base"),
     ("arith-unguarded-add", "C06", "R-ARITH", "expanded", "crates/runtime/src/core_lib/range.rs",
      "                        Some(start.saturating_sub(n)),", "                        Some(start - n),"),
     ("det-collect-pending", "C05", "R-DET", "finalize_id_accesses", "crates/parser/src/parser.rs",
      "        self.ids_assigned_in_frame\n            .extend(self.pending_assignments.drain());",
      "        let drained: Vec<ConstantIndex> = self.pending_assignments.drain().collect();\n        self.ids_assigned_in_frame.extend(drained);"),
+]
+
+
+# Seeded changes written by independent sub-agents (seeded/<id>/patch.diff) that a rule must report:
+# (seed id, property whose check must fail, expected rule)
+SEEDS = [
+    ("C03_a", "C03", "R-MATCH-ORDER"),
+    ("C04_a", "C04", "R-FRAMES"),
+    ("C04_b", "C07", "R-REGS"),
+    ("C05_a", "C05", "R-NARROW"),
+    ("C05_b", "C05", "R-ENC-FLAGS"),
+    ("C06_a", "C06", "R-BORROW"),
+    ("C07_a", "C07", "R-REGS"),
+    ("C07_b", "C07", "R-IMPORT"),
+    ("C08_a", "C08", "R-TIMEOUT-POLL"),
+    ("C08_b", "C08", "R-TIMEOUT-NOCATCH"),
+    ("C10_b", "C10", "R-INDENT"),
+    ("C12_a", "C12", "R-SPAN"),
+    ("C12_b", "C12", "R-IP-SYNC"),
+    ("C13_b", "C13", "R-ITER-COPY"),
+    ("C14_a", "C14", "R-MAP-ORDER"),
+    ("C14_b", "C14", "R-FRESH"),
+    ("C16_a", "C16", "R-TC-FLAG"),
+    ("C16_b", "C16", "R-TC-NULL-FIRST"),
+    ("C17_a", "C17", "R-DISPATCH-OPERANDS"),
+    ("C18_a", "C18", "R-IMPORT"),
+    ("C18_b", "C18", "R-RESOLVE-ORDER"),
+    ("C19_a", "C19", "R-SIBLING-API"),
+    ("C19_b", "C19", "R-ATOMIC"),
+    ("C20_a", "C20", "R-SERDE-KINDS"),
 ]
 
 
@@ -158,7 +184,8 @@ def main():
         del want[i:i + 2]
     muts = [m for m in MUTANTS if m[5] is not None and (not want or any(w in m[0] for w in want))
             and (prop is None or m[1] == prop)]
-    if not muts:
+    seeds = [x for x in SEEDS if (not want or any(w in "seed-" + x[0] for w in want)) and (prop is None or x[1] == prop)]
+    if not muts and not seeds:
         print("selftest: ok=0 fail=0 skip=0 (no catalogued mutant for this selection)")
         return 0
     scratch = tempfile.mkdtemp(prefix="kv_selftest_")
@@ -190,6 +217,25 @@ def main():
             else:
                 fail += 1
                 print(f"FAIL {name}: {prop} exit={r.returncode} broken={broken} expected {rule} on {fnsub}")
+                print("     " + "\n     ".join(r.stdout.splitlines()[-6:]))
+        for sid, sprop, rule in seeds:
+            patch = os.path.join(VERIF, "seeded", sid, "patch.diff")
+            r = sh(f"git -C {wt} apply {patch}")
+            if r.returncode != 0:
+                print(f"SKIP seed-{sid}: patch does not apply to HEAD")
+                skip += 1
+                sh(f"git -C {wt} checkout -- . && git -C {wt} clean -fdq")
+                continue
+            r = subprocess.run([os.path.join(VERIF, "check"), sprop, "--tier", "quick"], env=env, stdout=subprocess.PIPE,
+                               stderr=subprocess.STDOUT, text=True)
+            sh(f"git -C {wt} checkout -- . && git -C {wt} clean -fdq")
+            hit = [l for l in r.stdout.splitlines() if f"rule={rule} " in l]
+            if r.returncode == 1 and hit:
+                ok += 1
+                print(f"OK   seed-{sid}: {sprop} {rule} fired: {hit[0].strip()[:150]}")
+            else:
+                fail += 1
+                print(f"FAIL seed-{sid}: {sprop} exit={r.returncode} expected {rule}")
                 print("     " + "\n     ".join(r.stdout.splitlines()[-6:]))
     finally:
         sh(f"git -C /repo worktree remove --force {wt}")
